@@ -53,6 +53,11 @@ def customPoints (name : String) : Text → List Nat :=
   | "c2" => fun w => [blen w / 2]
   | "c3" => fun w => [blen w]
   | "c4" => fun _ => [2, 1]
+  | "c5" => fun w =>        -- directly after every '-', each point twice (merged, undeduplicated lists)
+    let rec go5 (off : Nat) : Text → List Nat
+      | [] => []
+      | c :: cs => (if c = '-' then [off + 1, off + 1] else []) ++ go5 (off + c.utf8Size) cs
+    go5 0 w
   | _ => fun _ => []
 
 def parseSplitter (s : String) : Splitter :=
